@@ -8,6 +8,7 @@ setup: coq models
 coq:
 	python3 tools/translate_status.py || true
 	python3 tools/translate_errno.py || true
+	python3 tools/translate_leaf.py || true
 	python3 tools/mkcoqproject.py
 	cd coq && timeout 3000 $(MAKE) -j16 -k || echo "WARNING: some Coq files failed to build (the affected checks will report it)"
 
